@@ -327,6 +327,22 @@ def rule_f(ctx):
       t = A.unparse(val)
       if not (t.startswith('self.children[') or '_decision_by_id' in t or 'named_decisions' in t):
         problems.append(f'line {k.lineno}: returns `{t}`, which is not read from the children / id / name tables')
+  # a decision point is looked up by its id (names are not unique: the sub-choices
+  # of a named multi-choice share one)
+  for t in g.nodes:
+    if t.kind == 'test' and isinstance(t.ast, ast.Call) and A.call_name(t.ast) == 'isinstance' \
+        and 'DNASpec' in A.unparse(t.ast.args[1]) + '' or (t.kind == 'test' and 'DecisionPoint' in A.unparse(t.ast)):
+      for m, lab in t.succ:
+        if lab != 'true':
+          continue
+        seen, _ = g.reach(m, follow_exc=False)
+        seen.add(m.id)
+        for i in seen:
+          k = g.nodes[i]
+          if k.ast is not None and any('named_decisions' in A.unparse(e, 200) for e in k.exprs()):
+            problems.append(f'a decision-point key can be answered from the name table (line {k.lineno}): same-named '
+                            f'decisions (sub-choices of a named multi-choice) are then returned together')
+            break
   ctx.ob('C12.f', f.fq, not problems,
          'DNA[key] is answered from the children list, the id table or the name table only '
          '(every key form of one decision gives the same answer)', f.loc, '; '.join(problems))
